@@ -654,6 +654,7 @@ Section WithV6.
         match fam with
         | None => Ok None
         | Some (afi, safi) =>
+            if (65535 <? afi) || (255 <? safi) then Ok None else
             let a16 := afi mod 65536 in
             let s8 := safi mod 256 in
             if is_fs_family (a16 * 65536 + s8) && (match nhs with [] => true | _ => false end)
@@ -1205,13 +1206,13 @@ Section Nlri.
     | PLabeled ls s len =>
         match ip4_of_string s with
         | Some a =>
-            if (32 <? len) || Nat.eqb (length ls) 0 || (255 <? 24 * N.of_nat (length ls) + len) then None
-            else Some (NLab4 (map (fun l => l mod 1048576) ls) a len)
+            if (32 <? len) || existsb (fun l => 1048575 <? l) ls || Nat.eqb (length ls) 0 || (255 <? 24 * N.of_nat (length ls) + len) then None
+            else Some (NLab4 ls a len)
         | None =>
             match v6r s with
             | Some a =>
-                if (128 <? len) || Nat.eqb (length ls) 0 || (255 <? 24 * N.of_nat (length ls) + len) then None
-                else Some (NLab6 (map (fun l => l mod 1048576) ls) a len)
+                if (128 <? len) || existsb (fun l => 1048575 <? l) ls || Nat.eqb (length ls) 0 || (255 <? 24 * N.of_nat (length ls) + len) then None
+                else Some (NLab6 ls a len)
             | None => None
             end
         end
@@ -1221,13 +1222,13 @@ Section Nlri.
         | Some d' =>
             match ip4_of_string s with
             | Some a =>
-                if (32 <? len) || Nat.eqb (length ls) 0 || (255 <? 24 * N.of_nat (length ls) + 64 + len) then None
-                else Some (NVpn4 (map (fun l => l mod 1048576) ls) d' a len)
+                if (32 <? len) || existsb (fun l => 1048575 <? l) ls || Nat.eqb (length ls) 0 || (255 <? 24 * N.of_nat (length ls) + 64 + len) then None
+                else Some (NVpn4 ls d' a len)
             | None =>
                 match v6r s with
                 | Some a =>
-                    if (128 <? len) || Nat.eqb (length ls) 0 || (255 <? 24 * N.of_nat (length ls) + 64 + len) then None
-                    else Some (NVpn6 (map (fun l => l mod 1048576) ls) d' a len)
+                    if (128 <? len) || existsb (fun l => 1048575 <? l) ls || Nat.eqb (length ls) 0 || (255 <? 24 * N.of_nat (length ls) + 64 + len) then None
+                    else Some (NVpn6 ls d' a len)
                 | None => None
                 end
             end
@@ -1567,6 +1568,7 @@ Section LocalPath.
   Definition local_path (fam : option N) (n : api_nlri) (xs : list api_attr)
     : option (N * nlri * list attr * option (list N)) :=
     let family := match fam with Some f => f | None => 65537 end in
+    if (65535 <? family / 65536) || (255 <? family mod 65536) then None else
     match net_from_api v6r n with
     | None => None
     | Some net =>
